@@ -342,4 +342,12 @@ def labels (cfg : Cfg) : List Label :=
 def enabled (cfg : Cfg) (s : State) : List Label :=
   (labels cfg).filter fun l => (step cfg s l).isSome
 
+/-- decidable form of `Prealloc` (Lemmas/Writer*Files.lean): the initial images are all zeros
+    and not longer than the largest end -/
+def preallocb (cfg : Cfg) : Bool :=
+  cfg.files.all (fun f => f.all (fun b => b == 0)) &&
+  (List.range cfg.files.length).all (fun φ => (cfg.files.getD φ []).isEmpty ||
+    (List.range cfg.n).any (fun i => decide (cfg.file i = φ) && !(cfg.data i).isEmpty &&
+      decide ((cfg.files.getD φ []).length = cfg.off i + (cfg.data i).length)))
+
 end IrVerif.Writer
